@@ -9,6 +9,10 @@ R = {
  "C08-g": (7, False, "C08 T9-symbol-parts (the cone part is printed from the list cone_degrees(ds) itself, only sorted and reversed; `*` + corner list per component of trace_boundary)", "two or more cone points of the same degree: 442 is printed as 42, 2222 as 2, 333 as 3"),
  "C16-g": (7, True, "reported by the generic T16 update-order table added an hour earlier (the inner walk variable d is no longer computed from itself)", "a cut that runs along two or more consecutive edges of the glued face, with a numbering that reaches that configuration (18 of 195 symbols up to 7 chambers)"),
  "C18-g": (7, True, "", "|b| smaller than every column norm of a and a large denominator: [[100000]] x = [[1]]"),
+ "C10-g": (7, True, "", "the last letter of a cancels the first letter of b: [1,2].commutator([-2,3])"),
+ "C02-g": (7, True, "reported by T4-none-outside-ranges (added for C04-f two hours earlier) and by T5", "SimpleDSym::m at chamber 0 for an adjacent index pair"),
+ "C04-g": (7, True, "", "non-commutative automorphism group: 6 chambers with dihedral symmetry of order 6"),
+ "C06-g": (7, False, "C06 T2-bound-passthrough (DSets::new configures the search with the caller's dim and max_size unmodified; root = PartialDSet::new(1, dim))", "size bound 0"),
  "C19-g": (7, True, "", "undirected edge cut with source label > sink label; inside_vertices is then the sink's side"),
 }
 for sid, (rnd, first, strength, needs) in R.items():
